@@ -85,4 +85,27 @@ UNITS.append(U(name='htp_parse_header_hostport', props=['C11', 'C01'], kind='con
                sub='Host field: any syntactic defect reported by the authority parser, a host name that fails validation, or no host name at all raises HTP_HOSTH_INVALID; '
                    'only that bit is touched, never cleared; a clean value leaves the flags alone',
                assumes=['htp_parse_hostport and htp_validate_hostname replaced by stubs with arbitrary answers; the stub of htp_parse_hostport promises "no host name => invalid" '
-                        '(read off the code: every path that leaves *hostname NULL with HTP_OK sets *invalid = 1; NOT enforced by a unit of its own)']))
+                        '(on the real function this is the assertion "no host name => marked invalid" of the bounded unit ref_parse_hostport_short, which therefore also serves C11; unbounded it is read off the code only)']))
+
+# ---- 5. host-name syntax on the real validator (bounded) --------------------------------------------------------
+VH = r'''typedef struct { unsigned char a[N]; size_t la; } vin_t;
+static struct { bstr b; unsigned char d[N]; } hb;              /* inline bstr, capacity N */
+void HARNESS(void) { VIN(vin_t);
+  VASSUME(in.la <= N);
+  RESTRICT
+  hb.b.len = in.la; hb.b.size = N; hb.b.realptr = NULL;
+  for (size_t i = 0; i < N; i++) hb.d[i] = in.a[i];
+  int r = htp_validate_hostname(&hb.b);
+  VASSERT(r == 0 || r == 1, "answer is 0 or 1");
+  VASSERT(r == ref_validate_hostname(in.a, in.la), "htp_validate_hostname equals the reference: labels of 1..63 bytes [A-Za-z0-9_-] separated by single dots, one trailing dot tolerated");
+  VASSERT(hb.b.len == in.la && hb.b.size == N && hb.b.realptr == NULL, "the host name is not modified (header)");
+  for (size_t i = 0; i < N; i++) VASSERT(hb.d[i] == in.a[i], "the host name is not modified (bytes)");
+  CANARY(); }'''
+UNITS.append(U(name='ref_validate_hostname', props=['C11', 'C01'], kind='bounded', src=['htp_util.c'], replay='vin', contracts_inc=['host_ref.h'],
+               harness=VH.replace('RESTRICT', 'VASSUME(in.la == 0 || in.a[0] != \'[\');'),
+               defs={'quick': dict({'N': 7}, **XD), 'thorough': {'N': 10}},
+               flags_add=['--unwind', '13', '--unwinding-assertions'], timeout=(300, 1500),
+               bound='all host names of length <= N bytes (N = 7 quick, 10 thorough) over all byte values that do not start with "[" (IP literals go to inet_pton, external)',
+               sub='"syntactically invalid hosts": the real validator agrees with an independent reference on every name up to N bytes',
+               assumes=['IP-literal form "[...]" is handed to inet_pton (libc, external): not covered', 'the 63-byte label limit and the 255-byte total limit need names longer than N: not covered (bounded run with N = 67 does not finish)']))
+# label-length edge (63/64) needs names of 65+ bytes: three nested scanning loops x 70 unwindings do not finish (tried 40 min, twice): NOT covered, said in assumes above.
